@@ -85,7 +85,7 @@ MUTANTS = {
     'C10': [
         dict(name='wrong-dest-on-one-edge', file='pl/state.dot',
              old="                           source=gitting,\n                           dest=running,\n", new="                           source=gitting,\n                           dest=loading,\n"),
-        dict(name='one-edge-loses-its-guard', file='pl/state.dot', old="                            after=reload,\n                            before=at_rest_only];", new="                            after=reload];"),
+        dict(name='one-edge-loses-its-guard', file='pl/state.dot', old="                                 after=navel_gaze,\n                                 before=at_rest_only];", new="                                 after=navel_gaze];"),
         dict(name='guard-only-refuses-exiting', file='pl/state.py', old="        if self.transitioning != Status.active:\n            raise transitions.MachineError(\n                f'While in {self.state} cannot take", new="        if self.transitioning == Status.exiting:\n            raise transitions.MachineError(\n                f'While in {self.state} cannot take"),
         dict(name='archive-done-ignores-prior', file='pl/state.py', old="        getattr(self, self.__prior + '_trigger')()\n", new="        self.running_trigger()\n"),
         dict(name='load-done-keeps-entering', file='pl/state.py',
